@@ -501,6 +501,15 @@ def addVariants : List (Nat × Nat × Nat) → List Nat → List (Nat × Nat × 
     | some y => addVariants acc (if y.2.1 != x.2.1 then x.1 :: skip else skip) xs
     | none => addVariants (acc ++ [x]) skip xs
 
+/-- `union_read.sort()`: by position (positions are unique here) -/
+def insertByPos (x : Nat × Nat × Nat) : List (Nat × Nat × Nat) → List (Nat × Nat × Nat)
+  | [] => [x]
+  | y :: ys => if x.1 < y.1 then x :: y :: ys else y :: insertByPos x ys
+
+def sortByPos : List (Nat × Nat × Nat) → List (Nat × Nat × Nat)
+  | [] => []
+  | x :: xs => insertByPos x (sortByPos xs)
+
 /-- returns `none` for "no read" else the (position-sorted) variants of the union read.
 `f12 = false`: the code as it is — every alignment whose orientation differs from the (last) primary's, or
 that lies further than `threshold` from it, is left out, *including the other mate of a pair* (defect F12);
@@ -514,6 +523,6 @@ def mergeGroup (f12 : Bool) (group : List Aligned) (threshold : Int) : Option (L
     let used := group.filter (fun r => (f12 && !r.supplementary) || (r.reverse == primary.reverse && alignedDistance primary r ≤ threshold))
     let r := used.foldl (fun st r => addVariants st.1 st.2 r.variants) (([] : List (Nat × Nat × Nat)), ([] : List Nat))
     let kept := r.1.filter (fun x => !r.2.contains x.1)
-    some (kept.mergeSort (fun a b => a.1 ≤ b.1))
+    some (sortByPos kept)
 
 end WhVerif.C06
